@@ -644,3 +644,10 @@ V('C12', 'program-slice-from-three', WALLET, 'return cls.from_bytes(0, scriptPub
 V('C01', 'format-code-H', CORE, 'nTime = struct.unpack(b"<I", ser_read(f,4))[0]', 'nTime = struct.unpack(b"<H", ser_read(f,4))[0]', 'C01.L1', scope='CBlockHeader.stream_deserialize')
 V('C09', 'mutable-setattr-through-immutable-base', CORE, 'cls.__setattr__ = object.__setattr__', 'cls.__setattr__ = ImmutableSerializable.__setattr__', 'C09.R4', scope='__make_mutable')
 
+
+# ------------------------------------------------------------------------------------------------ look-alike defects (round 9)
+V('C07', 'flags-default-none', EVAL, 'def EvalScript(stack, scriptIn, txTo, inIdx, flags=()):', 'def EvalScript(stack, scriptIn, txTo, inIdx, flags=None):', 'C07.F3')
+V('C06', 'flags-default-p2sh', EVAL, 'def VerifyScript(scriptSig, scriptPubKey, txTo, inIdx, flags=()):', 'def VerifyScript(scriptSig, scriptPubKey, txTo, inIdx, flags=(SCRIPT_VERIFY_P2SH,)):', 'C06.F1')
+V('C07', 'benign-flags-default-frozenset', EVAL, 'def EvalScript(stack, scriptIn, txTo, inIdx, flags=()):', 'def EvalScript(stack, scriptIn, txTo, inIdx, flags=frozenset()):', 'SILENT')
+V('C03', 'anyonecanpay-by-threshold', SCRIPT, '    if hashtype & SIGHASH_ANYONECANPAY:', '    if hashtype >= SIGHASH_ANYONECANPAY:', 'C03.D1', scope='RawSignatureHash')
+V('C13', 'trim-drops-last-byte', SCRIPT, 'while len(c1) > len(c2):\n        if c1.pop(0) > 0:', 'while len(c1) > len(c2):\n        if c1.pop() > 0:', 'UNDECIDED:C13.Z3', scope='CompareBigEndian')
